@@ -1,7 +1,8 @@
 /* C08 harness: format fragments through gd_cbopen with a parser callback.
  *
- * stdin : one case per line:  <P|Q><I|C|A|R> <format-hex> [<rescan-line-hex>]
- *           P = GD_PEDANTIC, Q = GD_PERMISSIVE
+ * stdin : one case per line:  <P|Q|D><I|C|A|R> <format-hex> [<rescan-line-hex>] [<name>=<hex> ...]
+ *           P = GD_PEDANTIC, Q = GD_PERMISSIVE, D = neither (a /VERSION switches to pedantic);
+ *           <name>=<hex>: a further fragment file of that name in the dirfile directory
  *           callback answer: I = GD_SYNTAX_IGNORE, C = GD_SYNTAX_CONTINUE,
  *           A = GD_SYNTAX_ABORT, R = GD_SYNTAX_RESCAN once per line with the
  *           offending line replaced by <rescan-line> (then IGNORE)
@@ -23,6 +24,8 @@
 #define MAXCB 64
 static int ncb, cb_sub[MAXCB], cb_line[MAXCB], action, rescanned_line;
 static char rescan_text[8192];
+static char extra[4][600];
+static int nextra;
 static const char *answers;   /* non-NULL: one answer letter per callback call (last one repeated) */
 
 
@@ -157,7 +160,7 @@ int main(void)
     unsigned long flags = GD_RDONLY;
     gd_entry_t E;
     if (!sp || strlen(line) < 4) { printf("BADCASE\n"); continue; }
-    flags |= (line[0] == 'P') ? GD_PEDANTIC : GD_PERMISSIVE;
+    flags |= (line[0] == 'P') ? GD_PEDANTIC : (line[0] == 'D') ? 0 : GD_PERMISSIVE;
     action = line[1];
     answers = NULL;
     if (line[1] == '=') {                  /* P=<answers> <hex>: an answer per call */
@@ -168,7 +171,22 @@ int main(void)
     }
     sp2 = strchr(sp + 1, ' ');
     rescan_text[0] = 0;
-    if (sp2) { unhex(sp2 + 1, rescan_text); }
+    nextra = 0;
+    while (sp2) {                          /* further fields: <name>=<hex> extra fragment, else the rescan line */
+      char *fld = sp2 + 1, *eq, *nx = strchr(fld, ' ');
+      size_t fl = nx ? (size_t)(nx - fld) : strcspn(fld, "\n");
+      eq = memchr(fld, '=', fl);
+      if (eq && nextra < 4) {
+        static char xc[32768];
+        size_t xn;
+        FILE *xf;
+        snprintf(extra[nextra], sizeof extra[0], "%s/%.*s", tmpl, (int)(eq - fld), fld);
+        xn = unhex(eq + 1, xc);
+        xf = fopen(extra[nextra], "w"); if (xf) { fwrite(xc, 1, xn, xf); fclose(xf); }
+        nextra++;
+      } else unhex(fld, rescan_text);
+      sp2 = nx;
+    }
     n = unhex(sp + 1, content);
     snprintf(path, sizeof path, "%s/format", tmpl);
     f = fopen(path, "w"); if (!f) { perror(path); return 2; }
@@ -196,6 +214,7 @@ int main(void)
       printf("\n");
     } else printf(" F- O- N- P- T-\n");
     gd_discard(D);
+    for (i = 0; i < nextra; i++) unlink(extra[i]);
   }
   snprintf(cmd, sizeof cmd, "rm -rf %s", tmpl);
   if (system(cmd)) {}
